@@ -726,6 +726,20 @@ std::string handle(std::vector<std::string> const &t)
     *lists[a] = std::move(*lists[b]);
     return "ok" + list_dump();
   }
+  if (o == "LS" && t.size() == 3 && num(t[1], max_lists - 1, a) && num(t[2], max_lists - 1, b))
+  {
+    if (!lists[a] || !lists[b])
+      return "bad-op";
+    std::swap(*lists[a], *lists[b]); // a == b: self-swap
+    return "ok" + list_dump();
+  }
+  if (o == "ES" && t.size() == 3 && num(t[1], max_elems - 1, a) && num(t[2], max_elems - 1, b))
+  {
+    if (!elems[a] || !elems[b])
+      return "bad-op";
+    std::swap(*elems[a], *elems[b]);
+    return "ok" + list_dump();
+  }
   if (o == "LD" && t.size() == 2 && num(t[1], max_lists, a))
   {
     if (!lists[a])
@@ -1041,6 +1055,26 @@ std::string handle(std::vector<std::string> const &t)
       break;
     default:
       *wsigs[a] = std::move(*wsigs[b]);
+    }
+    return "ok" + sig_dump();
+  }
+  if (o == "SS" && t.size() == 3 && num(t[1], max_lists - 1, a) && num(t[2], max_lists - 1, b))
+  {
+    if (!sig_live(a) || !sig_live(b) || sig_family(a) != sig_family(b))
+      return "bad-op";
+    switch (sig_family(a))
+    {
+    case 0:
+      std::swap(*usigs[a], *usigs[b]);
+      break;
+    case 1:
+      std::swap(*psigs[a], *psigs[b]);
+      break;
+    case 2:
+      std::swap(*vsigs[a], *vsigs[b]);
+      break;
+    default:
+      std::swap(*wsigs[a], *wsigs[b]);
     }
     return "ok" + sig_dump();
   }
